@@ -19,19 +19,24 @@ def sources(tier):
     if tier == "quick":
         return [("spot1+fut", ledger.FEES[0], q, deposit, 3), ("spot4+fut", ledger.FEES[1], q, deposit, 2),
                 ("fut+fut", ledger.FEES[4], q, deposit, 2), ("etf+es", ledger.FEES[5], q, deposit, 2),
-                ("halfmult", ledger.FEES[0], q, deposit, 3), ("spot+spot", ledger.FEES[3], q, deposit, 2)]
+                ("halfmult", ledger.FEES[0], q, deposit, 3), ("spot+spot", ledger.FEES[3], q, deposit, 2),
+                ("spot1+fut", ledger.FEES[0], q, deposit, 2, 0.05), ("fut+fut", ledger.FEES[1], q, deposit, 2, 0.05)]
     out = []
     for u in ledger.UNIVERSES:
         for f in (ledger.FEES[0], ledger.FEES[1], ledger.FEES[4], ledger.FEES[5]):
             out.append((u, f, q, deposit, 3))
     out[0] = out[0][:4] + (4,)
+    for u in ledger.UNIVERSES:
+        out.append((u, ledger.FEES[0], q, deposit, 3, 0.05))
+        out.append((u, ledger.FEES[1], q, deposit, 2, 0.05))
     return out
 
 
 def _collect(src):
-    universe, fee, quotes, deposit, depth = src
+    universe, fee, quotes, deposit, depth = src[:5]
+    rate = src[5] if len(src) > 5 else 0.0
     ops = ledger.alphabet(with_rebalance=False, nquotes=len(quotes), marks=False)
-    states, r = ledger.collect_states(universe, fee, depth, quotes, deposit, ops)
+    states, r = ledger.collect_states(universe, fee, depth, quotes, deposit, ops, rate=rate)
     return src, states, r["transitions"]
 
 
@@ -88,9 +93,11 @@ def check_rebalance(sb, ref, cs, fee, measure, alloc, second=True):
                     if abs(w.get(c, 0.0) - a) > 1e-9:
                         msgs.append("frictionless market: reported weight of %s is %r, target %r" % (c.symbol, w.get(c, 0.0), a))
             if second and post > 0:
-                rb2 = Rebalancing(contracts=list(cs), allocation=list(alloc), measure=measure, time=now + timedelta(seconds=1))
-                b.rebalance(rb2)
-                notional = sum(abs(t.notional) for t in rb2.trades)
+                # "immediate": same instant, so no further interest accrues; the trades it would make are
+                # computed with make_trades (a second executed rebalance at the same timestamp would be
+                # rejected by the track record as a duplicate)
+                rb2 = Rebalancing(contracts=list(cs), allocation=list(alloc), measure=measure, time=now)
+                notional = sum(abs(t.notional) for t in rb2.make_trades(b))
                 if notional > 1e-9 * post:
                     msgs.append("frictionless market: an immediate second rebalance to the same target traded notional %r" % notional)
         except EndOfEpisodeError:
@@ -102,7 +109,8 @@ def check_rebalance(sb, ref, cs, fee, measure, alloc, second=True):
 
 def _work(unit):
     src, chunk = unit
-    universe, fee, quotes, deposit, depth = src
+    universe, fee, quotes, deposit, depth = src[:5]
+    rate = src[5] if len(src) > 5 else 0.0
     cs = ledger.contracts_of(universe)
     reset_clock()
     out = {"transitions": 0, "violations": [], "nontrivial": 0, "outcomes": set()}
@@ -114,7 +122,7 @@ def _work(unit):
                 if traded:
                     out["nontrivial"] += 1
                 if msgs:
-                    case = {"universe": universe, "fee": list(fee), "quotes": [list(q) for q in quotes], "deposit": deposit,
+                    case = {"universe": universe, "fee": list(fee), "quotes": [list(q) for q in quotes], "deposit": deposit, "rate": rate,
                             "history": [list(o) for o in hist], "measure": measure, "alloc": list(alloc)}
                     out["violations"].append((case, "; ".join(msgs[:3]), (msgs[0].split(" ")[0], measure, universe)))
     return out
@@ -142,13 +150,13 @@ def run(tier, **kw):
     rep.set("states", nstates)
     rep.set("bfs_transitions_to_reach_states", bfs_trans)
     rep.set("targets", {"weight": W_TARGETS, "nr-contracts": N_TARGETS})
-    rep.set("sources", [{"universe": s[0], "fee": s[1], "depth": s[4]} for s in srcs])
+    rep.set("sources", [{"universe": s[0], "fee": s[1], "depth": s[4], "rate": (s[5] if len(s) > 5 else 0.0)} for s in srcs])
     rep.set("exhaustive", True)
     rep.set("samples", [{"universe": "spot1+fut", "history": [["t", 1, -2.0], ["q", 1, 1]], "measure": "weight", "alloc": [1.5, -0.5],
                          "meaning": "short 2 F, quote F 100/104, then rebalance to 150% S / -50% F"}])
     rep.assumptions = ["start states: every state of the ledger BFS within the depth bound per source (NLV > 0)",
                        "a rebalance whose own trades drive NLV <= 0 is excluded (C09)",
-                       "NLV before trading = reference ledger NLV + reported interest of the rebalance (rate 0 here)"]
+                       "NLV before trading = reference ledger NLV + reported interest of the rebalance (one day at 5% in the sources marked rate=0.05, else 0)"]
     return rep.finish(replay)
 
 
@@ -156,7 +164,7 @@ def replay(case, **kw):
     reset_clock()
     universe, fee = case["universe"], tuple(case["fee"])
     quotes = [tuple(q) for q in case["quotes"]]
-    b, ref, cs = ledger.initial(universe, fee, quotes, case["deposit"])
+    b, ref, cs = ledger.initial(universe, fee, quotes, case["deposit"], case.get("rate", 0.0))
     for op in case["history"]:
         ref, _ = ledger.apply_op(b, ref, cs, tuple(op), quotes, fee)
     msgs, _ = check_rebalance(snap(b), ref, cs, fee, case["measure"], tuple(case["alloc"]))
